@@ -11,7 +11,7 @@ import (
 var windowKinds = []ref.OpKind{ref.Update, ref.Recover, ref.Deactivate}
 
 const (
-	windowFroms  = 7
+	windowFroms  = 11
 	windowUntils = 8
 	// WindowVariants is the number of grid points per configuration.
 	WindowVariants = 3 * windowFroms * windowUntils
@@ -62,6 +62,14 @@ func GenWindow(seed uint64, variant int, pool *Pool) *Plan {
 		from = t
 	case 6:
 		from = t + 1
+	case 7: // negative from: the default expiry from + delta is 0 / negative / barely positive - always before t
+		from = -delta
+	case 8:
+		from = -delta - 1
+	case 9:
+		from = -delta + 1
+	case 10:
+		from = -1
 	}
 	var until int64
 	switch ui {
